@@ -356,7 +356,12 @@ class ServiceClass:
                     f"(Warning - {status[1]})"
                 )
                 self.dimse.send_msg(rsp, cx_id)
-                continue
+                # Only 0xB001 (Repository Query response limit, PS3.4 C.6.4.4)
+                #   is followed by further responses, all other warnings are final
+                if rsp.Status == 0xB001:
+                    continue
+
+                return
 
             if status[0] == STATUS_PENDING:
                 # If pending, `dataset` is the Identifier
